@@ -78,8 +78,8 @@ def run(tier, seed):
         if s % 11 == 5:
             nl, nh = 6, 5        # beyond one 100-packet batch
         fmt = rng.choice([0, 2])
-        # calibration runs: a CDW leads the data of every page.  They are conforming streams by checks_list.md but NOT members of the
-        # proved word-level grammar (it has no CDW production): their silence is observed, not proved
+        # calibration runs: a CDW leads the data of every page: members of the CDW-extended word-level grammar (Spec/GrammarItsCdw.v,
+        # theorem C01_its_tier_calibration); the stave tier has no CDW production, there their silence is observed only
         calib = s % 7 == 3
         _m, per = streams.conforming(rng, nlinks=nl, nhbf=nh, stave_level=stave, fmt=fmt, version=rng.choice([7, 7, 6]), calib=calib)
         layout = rng.choice(["contiguous", "round-robin", "random-1"])
@@ -109,13 +109,15 @@ def run(tier, seed):
     chk.add_stream("grammar", len(glines), gd, [], distribution={"links": len(glines)})
     # ---- ... and every generated link is a member of the WORD-level grammar (Spec/GrammarIts.v) that the ITS-tier theorem quantifies
     #      over: the extracted membership test (sound by C01_membership_test_sound) accepts it, and rendering it gives the bytes back
-    imeta = [m for m in gmeta if not m["calib"]]
+    imeta = gmeta
     ilines = [desc_line(m["pk"], with_payload=True) for m in imeta]
     ires = core.run_lines(core.FPMODEL, "grammarits", ilines, shards=core.NCPU)
     idist = set()
     members = 0
     stave_links = 0
     stave_members = 0
+    calib_links = 0
+    calib_members = 0
     for m, line, out in zip(imeta, ilines, ires):
         want = ",".join((r + p_).hex().upper() for r, p_ in m["pk"])
         npages = len(m["pk"])
@@ -123,7 +125,22 @@ def run(tier, seed):
         if out.startswith("wf=1 its=1 "):
             members += 1
         head, _, body = out.partition(" stave=")
-        stave_flag, _, rendered = body.partition(" ")
+        stave_flag, _, body = body.partition(" ")
+        cdw_flag, _, rendered = body.partition(" ")
+        if m["calib"]:
+            # a calibration link: a member of the CDW-extended grammar (C01_its_tier_calibration applies); the plain and the
+            # stave-level grammar have no CDW production
+            calib_links += 1
+            if cdw_flag == "cdw=1" and out.startswith("wf=1 ") and rendered == want:
+                calib_members += 1
+            else:
+                chk.disagreements.append({"stream": "grammar-its", "description": line[:800], "verdict": out[:26],
+                                          "detail": "a generated calibration link is not accepted by the membership test of the CDW-extended grammar "
+                                                    "(Spec/GrammarItsCdwCheck.v link_witness_cdw), or its rendering differs from the generated bytes"})
+            continue
+        if cdw_flag != "cdw=1":
+            chk.disagreements.append({"stream": "grammar-its", "description": line[:800], "verdict": out[:26],
+                                      "detail": "a link of the plain grammar is not accepted by the CDW-extended membership test (which contains it)"})
         if m.get("stave"):
             stave_links += 1
             if stave_flag == "1":
@@ -137,7 +154,7 @@ def run(tier, seed):
                                       "detail": "a generated conforming link is not accepted by the membership test of the word-level grammar "
                                                 "(Spec/GrammarItsCheck.v link_witness), or its rendering differs from the generated bytes"})
     chk.add_stream("grammar-its", len(ilines), idist, [{"description": ilines[0][:200] + "...", "verdict": ires[0][:11]}] if ilines else [],
-                   distribution={"links": len(ilines), "calibration_links_outside_the_grammar": len(gmeta) - len(imeta), "members_of_the_word_level_grammar": members,
+                   distribution={"links": len(ilines), "calibration_links": calib_links, "members_of_the_cdw_extended_grammar": calib_members, "members_of_the_word_level_grammar": members,
                                  "stave_level_links": stave_links, "members_of_the_stave_level_grammar": stave_members})
 
     # ---- every mode is silent
